@@ -4,6 +4,7 @@ import numpy as np
 from .. import core, repair as RP, oracle as O, util as U
 
 PID = 'C10'
+_LAST = {}
 OPTS = [(False, False, 1000), (True, True, 1000), (True, False, 1), (False, True, 1), (True, 'long', 1000)]   # (indel, with check, heap)
 
 
@@ -29,6 +30,9 @@ def rep_case(r, k, G, acc, start, s, indel, with_chk, heap):
                 '(list of str, tuple of 4 numbers)', repr(res)[:150])
         else:
             r.out.add((len(res[0]) if len(res[0]) < 5 else 5, int(res[1][0])))
+            if int(res[1][0]) >= 1:
+                _LAST['case'] = dict(RP.gcase(k, G) if len(G) <= 16 else {'k': k}, start=start, strand=s, indel=indel, check=chk, heap=heap, loops=loops, budget=RP.budget(len(s), k, heap),
+                                     candidates=list(res[0])[:3], statistics=core._j(res[1]))
     if first_bad:
         r.ctr['first_nucleotide_not_an_arc'] += 1
 
@@ -216,8 +220,7 @@ def _w(chunk):
     for k, G, t in items:
         check_graph(r, k, G, n_by_k[k])
     k, G, t = items[-1]
-    r.sample(dict(RP.gcase(k, G), strings='all ACGT strings of length %d..%d' % (k, n_by_k[k]), starts='every index 0..%d' % (len(G) - 1),
-                  options='(indel, check, heap) in ' + str(OPTS)), 1)
+    r.sample(_LAST.get('case') or dict(RP.gcase(k, G), strings='all ACGT strings of length %d..%d' % (k, n_by_k[k])), 1)
     return r
 
 
